@@ -265,6 +265,8 @@ structure PropInfo where
   writable : Bool := true
   constructOnly : Bool := false
   isBool : Bool := false
+  /-- the default the runtime dump reports (`prop.default_value` before any annotation) -/
+  default : Option Str := none
   deriving DecidableEq, Repr
 
 structure Node where
@@ -375,7 +377,9 @@ def annotateNode (blocks : Blocks) (n : Node) : NodeOut :=
     fields := if n.kind.isCompound then n.fields.map (applyField blocks (annotationName n)) else []
     -- properties and signals are looked up after the node's own SECTION block was popped
     props := if hasProps n then
-        n.props.map (fun p => applyProperty (without blocks (sectionKeys n)) (annotationName n) p.name) else []
+        n.props.map (fun p => (applyProperty (without blocks (sectionKeys n)) (annotationName n) p.name).map
+          -- a property the block gives no (default-value) keeps what the runtime dump reported
+          (fun e => { e with defaultValue := orOld e.defaultValue p.default })) else []
     sigs := if hasProps n then
         n.sigs.map (applySignal (without blocks (sectionKeys n)) (annotationName n)) else [] }
 
